@@ -67,6 +67,62 @@ def histories(tier, rng):
     return out
 
 
+
+REMOTE_CLAUSES = ["EventSubscribe", "EventBuffer", "EventOnce", "EventNotice", "EventLostAtEnd"]
+
+
+def remote_cases(tier, rng):
+    ev = []
+    def E(**kw):
+        d = {"id": len(ev) + 1, "buffer": 3, "pre": 5, "post": 6, "subs": 2, "rel": "mixed", "pool": 2, "chunk": 0, "size": 40, "end": ""}
+        d.update(kw); ev.append(d)
+    for buffer in (0, 1, 3):
+        for pre in (0, 1, 3, 5):
+            E(buffer=buffer, pre=pre, post=rng.choice([1, 4, 9]), rel=rng.choice(["link", "monitor", "mixed"]), subs=rng.choice([1, 2, 3]), pool=rng.choice([1, 2, 3]))
+    for end in ("unregister", "kill"):
+        for rel in ("link", "monitor", "mixed"):
+            E(end=end, rel=rel, post=rng.choice([2, 8]), subs=2)
+    E(size=5000, chunk=7, post=20); E(size=70000, post=5, pool=3); E(post=300, subs=3, pool=3, chunk=rng.choice([0, 100]))
+    for _ in range(4 if tier == "quick" else 60):
+        E(buffer=rng.choice([0, 1, 2, 5, 10]), pre=rng.randint(0, 12), post=rng.randint(0, 40), subs=rng.randint(1, 4), rel=rng.choice(["link", "monitor", "mixed"]),
+          pool=rng.choice([1, 2, 3, 4]), chunk=rng.choice([0, 0, 3, 64, 1460]), size=rng.choice([10, 40, 300, 5000]), end=rng.choice(["", "", "unregister", "kill"]))
+    return ev
+
+
+def run_remote(prop, tier, w, vh, rng):
+    """subscribers on another node: buffer handed over, every later publication once and in order, one notice at the end"""
+    ev = remote_cases(tier, rng)
+    nshard = 6
+    import concurrent.futures as cf
+    def run(i):
+        inp = os.path.join(w, "rev_in_%d.json" % i); out = os.path.join(w, "rev_trace_%d.ndjson" % i)
+        json.dump({"cases": [], "events": ev[i::nshard]}, open(inp, "w"))
+        return (i,) + vlib.run_vh(vh, ["netdeliver", "-in", inp, "-out", out], timeout=1200)
+    with cf.ThreadPoolExecutor(nshard) as ex:
+        for i, rc, so, se, to in ex.map(run, range(nshard)):
+            if rc != 0 or to:
+                raise vlib.Infra("remote event harness failed rc=%s: %s" % (rc, (se or so)[-1200:]))
+    lines = []
+    for i in range(nshard):
+        lines += open(os.path.join(w, "rev_trace_%d.ndjson" % i)).read().splitlines()
+    open(os.path.join(w, "rev_trace.ndjson"), "w").write("\n".join(lines) + "\n")
+    fam.write_mc(w, "MC_NetEvT", "Net", {}, {"TraceFile": '"rev_trace.ndjson"', "Checks": fam.tla_set(REMOTE_CLAUSES)}, constraint="HWM", postcondition="TraceAccepted")
+    r = vlib.run_tlc(w, "MC_NetEvT.tla", "MC_NetEvT.cfg", workers=1, timeout=1200)
+    if re.search(r'TRACE_REJECTED_AT_LINE', r.out):
+        raise vlib.Infra("Net.tla could not consume the remote event trace: %s" % r.out[-800:])
+    hits = [(m.group(1), int(m.group(2))) for m in re.finditer(r'"CLAUSE_VIOLATED", "(\w+)", "LINE", (\d+)', r.out)]
+    if r.rc != 0 and not hits:
+        raise vlib.Infra("remote event validation failed: %s" % (r.error or r.out[-1200:]))
+    known = {f["id"]: f for f in vlib.load_known()}
+    viol = []; kf = []
+    for clause, line in hits:
+        e = json.loads(lines[line - 1])
+        if clause == "EventLostAtEnd" and known.get("P28", {}).get("status") == "open":
+            kf.append(e); continue
+        viol.append({"clause": clause, "history": {"id": 100000 + e["p"], "remote_case": e["c"]}, "line": {k: e[k] for k in ("c", "subres", "kinds", "notes")} | {"published": len(e["sums"]), "buf": [len(b) for b in e["buf"]], "live": [len(x) for x in e["live"]]}})
+    return {"cases": len(ev), "violations": viol, "known": kf, "states": r.distinct, "generated": r.generated, "sample": ev[rng.randrange(len(ev))]}
+
+
 def main(prop, tier):
     t0 = time.time(); seed = vlib.seed(); rng = random.Random(seed)
     w = vlib.scratch("ev_")
@@ -93,18 +149,24 @@ def main(prop, tier):
         for clause, line in hits:
             e = json.loads(lines[line - 1])
             violations.append({"clause": clause, "history": byid[e["p"]], "line": e})
-        validated = len(hs) - len({v["history"]["id"] for v in violations})
-        cov = {"states": max(r.distinct, 1), "transitions": max(r.generated, 1), "traces_validated_against_impl": validated,
+        rem = run_remote(prop, tier, w, vh, rng)
+        violations += rem["violations"]
+        validated = len(hs) + rem["cases"] - len({v["history"]["id"] for v in violations})
+        cov = {"remote_subscriber_cases": rem["cases"], "remote_clauses": REMOTE_CLAUSES, "remote_sample": rem["sample"],
+               "states": max(r.distinct + rem["states"], 1), "transitions": max(r.generated + rem["generated"], 1), "traces_validated_against_impl": validated,
                "samples": [hs[0], hs[rng.randrange(len(hs))]], "histories": len(hs), "operations": st["ops"], "clauses": CLAUSES, "exhaustive": False}
         assumptions = ["operations are sequential (quiescence after each); the publish-versus-subscribe race is not bound to the code yet",
                        "2 producers, 3 consumers, 2 events, buffers 0-3; one consumer never holds both a link and a monitor on the same event; consumers are not killed",
-                       "remote subscribers are not covered here"]
+                       "remote subscribers: a producer on one real node, 1-4 subscribers on another behind the relay; the subscribe-versus-publish window is not placed"]
         vlib.write_evidence(prop, tier, "model_checking", cov, assumptions, time.time() - t0, violations=len(violations))
+        if rem["known"]:
+            c = rem["known"][0]["c"]
+            print("KNOWN-FINDING: property=%s P28 %s (%d case(s), e.g. end=%s post=%d: subscribers got %s of %d)" % (prop, [f for f in vlib.load_known() if f["id"] == "P28"][0]["line"].split(" ", 3)[-1][:230], len(rem["known"]), c["end"], c["post"], [len(x) for x in rem["known"][0]["live"]], c["post"]))
         for v in violations[:12]:
             path = vlib.save_replay(prop, "ev_h%d_%s" % (v["history"]["id"], v["clause"]), v)
             print("VIOLATION property=%s replay=%s" % (prop, path))
             print("  clause %s: line %s" % (v["clause"], json.dumps(v["line"])[:900]))
-        print("%s %s: %d histories (%d operations), %d validated against the reference, %d violations, %.0fs" % (prop, tier, len(hs), st["ops"], validated, len(violations), time.time() - t0))
+        print("%s %s: %d histories (%d operations) + %d remote subscriber cases, %d validated against the reference, %d violations, %.0fs" % (prop, tier, len(hs), st["ops"], rem["cases"], validated, len(violations), time.time() - t0))
         return 1 if violations else 0
     finally:
         if not os.environ.get("VERIF_KEEP"):
